@@ -7,6 +7,8 @@ import Driver.Util
         -> stored <offBase,...|-> <lastLits> <r0.r1.r2> | fallback | failed | invalid         (SeqApi.producerBlock)
   blockreps <cap> <frame-hex> [dict-hex (raw content)]
         -> ok <ty>,<regen>,<r0.r1.r2 = the DECODER's repeat-offset history after the block>,<ofValue:ll:ml:offset/...|-|*>;...   (independent decoder, Frame trace)
+  merge <off:ll:ml,...|->
+        -> <off:ll:ml,...|-> <literals of the trailing delimiters>                                 (SeqApi.mergeDelims / mergeDropped)
 -/
 namespace Driver.SeqProd
 open ZstdVerif
@@ -55,6 +57,10 @@ def step (_ : Unit) (ws : List String) : Unit × String :=
                 (r', out ++ [s!"{b.hdr.ty},{b.regen},{repStr r'},{sq}"])) ((⟨1, 4, 8⟩ : Rep.R), [])
             out)
           "ok " ++ ";".intercalate cells)
+  | ["merge", sq] =>
+      let l := parseSeqs sq
+      let m := SeqApi.mergeDelims l
+      ((), (if m.isEmpty then "-" else ",".intercalate (m.map (fun s => s!"{s.offset}:{s.ll}:{s.ml}"))) ++ s!" {SeqApi.mergeDropped l}")
   | _ => ((), "bad-op")
 
 def main : IO Unit := do
